@@ -90,6 +90,15 @@ CLAIMED = {
         technique="bounded stand-in for contract-based verification: deal run-time contracts on the real export functions over an enumerated input set (labelled bounded, not proved)",
         design_ref="DESIGN.md section 2, C45",
     ),
+    "C47": dict(
+        category="exploration",
+        text=("BOUNDED stand-in (never counted as proved): the real solver is run in fresh Python processes with PYTHONHASHSEED = 1, 2 and random on a tiny NLO QCD card pair with a threshold crossing (thorough tier: "
+              "also LO with QED (1,1)); the archives must have the same member names and bitwise identical members (operators after decompression, recipes, cards, metadata). The inventory file names are shown to "
+              "depend on numeric header fields only (not randomised by the hash seed) and encode() gives equal names across seeds."),
+        note="Bounded: finite input set stated in bounded/C47_native.py. Not covered: parallel integration, other platforms or library versions.",
+        technique="bounded stand-in for contract-based verification: deal run-time contracts around the real solver run in fresh processes (labelled bounded, not proved)",
+        design_ref="DESIGN.md section 2, C47",
+    ),
     "C40": dict(
         category="exploration",
         text=("BOUNDED stand-in, never counted as proved: YAML and the dataclass / typing reflection of eko.io.dictlike are outside the symbolic engine. `deal` run-time contracts on the real "
@@ -502,7 +511,6 @@ NA = {
     "C12": "convergence rate of iterated/perturbative discretisations towards a solution without closed form: no finite pre/postcondition decides it",
     "C28": "Python-vs-Rust equivalence: no Rust verifier installed; would be translation validation (different family)",
     "C35": "accuracy of numerical contour integration (scipy.integrate.quad) is outside the verifier's reach",
-    "C47": "two OS processes with different hash seeds: whole-process property",
     "C48": "numba compiler output vs Python definition: compiler semantics, not function contracts",
     "C50": "needs exact RG identities for all N3LO ingredients; otherwise x-space numerics",
     "C54": "Rust reader: no Rust verifier; cross-language I/O",
